@@ -11,7 +11,12 @@ Inductive fbody :=
 | FCtxSize                       (* return context.size *)
 | FCtxPosition                   (* return context.position *)
 | FStartsWith (s p : nat)        (* return <param s>.startswith(<param p>) *)
-| FFirstTextChild.               (* content of the first TextNode child of context.node, else "" *)
+| FFirstTextChild                (* content of the first TextNode child of context.node, else "" *)
+(* the same with functions._to_string applied to every argument (string(): str unchanged, bool -> "true"/"false",
+   integral number -> its decimal numeral; the helper's body is pinned by the translator, Eval.py_to_string models it) *)
+| FJoinAllS
+| FInS (needle hay : nat)
+| FStartsWithS (s p : nat).
 
 (* parameters after the context parameter; variadic = the last one is *args *)
 Record fdef := { f_nparams : nat; f_variadic : bool; f_body : fbody }.
